@@ -273,8 +273,9 @@ def main():
     sample_runs = runs[:3]
     lines, stats, herr, wall = run_batch(prop, seed, runs, tier, samples=sample_runs, gen_opts=getattr(mod, "gen_opts", lambda t: {})(tier))
     if herr:
-        for h in herr[:5]:
-            print("HARNESS-ERROR %s" % h)
+        herr.sort(key=lambda h: 0 if ":" in h and "exited with" not in h else 1)     # detailed messages first
+        for h in herr[:4]:
+            print("HARNESS-ERROR %s" % h[:3000])
         return 2
     if len(lines) != len(runs):
         print("HARNESS-ERROR %d of %d runs reported" % (len(lines), len(runs)))
